@@ -112,7 +112,38 @@ def gen(ctx):
                         for prio in ((0, 1, 2) if sym == 'rm' else (0,)):
                             add(sym, level, kanji, prio, pl)
     ctx.c05 = meta
-    return L
+    # function-level correspondence (implementation against model only): Segment.length and calcVersion of the three
+    # packages on every mode value 0..9 / 255, versions incl. out-of-range ones, lengths around the count limits
+    F = []
+    vers = {'qr': [-1, 0, 1, 2, 9, 10, 11, 26, 27, 28, 39, 40, 41], 'mq': [-1, 0, 1, 2, 3, 4, 5], 'rm': [-1, 0, 1, 5, 10, 16, 17, 30, 31, 32]}
+    for sym in ('qr', 'mq', 'rm'):
+        for ver in vers[sym]:
+            for mode in list(range(10)) + [255]:
+                for n in (0, 1, 2, 3, 4, 7, 8, 15, 16, 31, 32, 63, 64, 255, 256, 1023, 1024):
+                    if n > 64 and (mode + ver + n) % 3:
+                        continue
+                    d = (b'1' * n).hex() if n else '-'
+                    if sym == 'rm':
+                        for lv in (0, 1):
+                            F.append('rm.seglen %d %d %d %s' % (ver, lv, mode, d))
+                    else:
+                        F.append('%s.seglen %d %d %s' % (sym, ver, mode, d))
+        kan = '点茗日本'.encode()
+        for ver in vers[sym][2:5]:
+            F.append(('rm.seglen %d 0 %d %s' % (ver, symgen.ref(sym).MODE['kanji'], kan.hex())) if sym == 'rm' else ('%s.seglen %d %d %s' % (sym, ver, symgen.ref(sym).MODE.get('kanji', 8), kan.hex())))
+        # calcVersion on the segment lists New returned above is exercised through New; here: hand-made lists incl. unsupported modes
+        for _ in range(30 if ctx.tier == 'quick' else 300):
+            ver, level = r.choice(symgen.configs(sym))
+            segs = symgen.random_segs(sym, r, ver, level)
+            if r.chance(1, 5):
+                segs = segs + [(r.choice([0, 3, 5, 6, 7, 9, 15]), b'12')]
+            body = '%d %s' % (len(segs), ' '.join('%d %s' % (m, dd.hex() if dd else '-') for m, dd in segs)) if segs else '0'
+            if sym == 'rm':
+                for prio in (0, 1, 2, 3):
+                    F.append('rm.calcver %d %d %s' % (level, prio, body))
+            else:
+                F.append('%s.calcver %d %s' % (sym, level, body))
+    return L + F
 
 
 def oracle(ctx, lines, out):
